@@ -772,6 +772,91 @@ fn subscriber_children(ctx: &mut Ctx) {
     }
 }
 
+
+/// entries appended while the writer is INSIDE a stream flush (one it performs for a flush
+/// request, or a periodic one), with the end of the queue's life beginning before that flush
+/// returns: shut_down() / drop of the join handle is called from another thread while the writer
+/// is still held, so the shutdown signal is already set when the flush comes back. Everything was
+/// appended before shut_down() was called - all of it has to reach the stream.
+#[derive(Clone, Debug, Serialize, Deserialize)]
+pub struct DuringFlushEndCase {
+    pub boxed: bool,
+    pub qkind: u8,
+    /// entries before the flush request (written before the writer enters the flush)
+    pub k1: u8,
+    /// entries appended while the writer is held inside stream.flush()
+    pub m: u8,
+    pub long_interval: bool,
+    /// 0 shut_down(), 1 drop of the join handle
+    pub end: u8,
+    /// a flush request is outstanding (otherwise the held flush is the periodic one)
+    pub request: bool,
+    /// stream answers (cyclic; empty = Ok)
+    pub results: Vec<SRes>,
+}
+
+pub fn check_during_flush_end(case: &DuringFlushEndCase) -> CaseResult {
+    let log = Arc::new(EventLog::default());
+    let gate = Gate::new(true);
+    let mut stream = BqStream::new(case.results.clone(), gate.clone(), log.clone());
+    stream.cycle = true;
+    let hold = Arc::new(FlushHold::default());
+    stream.flush_hold = Some(hold.clone());
+    let k1 = case.k1 as usize;
+    let m = case.m.max(1) as usize;
+    let cap = k1 + m + 2;
+    // without a request only a periodic flush can be the held one
+    let long_interval = case.long_interval && case.request;
+    let interval = if long_interval { Duration::from_secs(30) } else { Duration::from_millis(1) };
+    let qkind = [0u8, 1, 2, 4, 5][case.qkind as usize % 5];
+    let (q, handle) = build_queue_kind(qkind, cap, case.boxed, interval, stream);
+    let reports_before = REPORTS_SEEN.load(std::sync::atomic::Ordering::Relaxed);
+    let mut seq = 0u32;
+    let mut append = |n: usize| {
+        for _ in 0..n {
+            let id = Id { p: 0, s: seq };
+            seq += 1;
+            log.push(Ev::AppendStart(id));
+            q.append(TestE(id));
+            log.push(Ev::AppendEnd(id));
+        }
+    };
+    append(k1);
+    hold.arm();
+    let f1 = if case.request { Some(q.flush_async()) } else { None };
+    if !hold.wait_in_flush(Duration::from_secs(5)) {
+        hold.release();
+        drop(f1);
+        let _ = no_panic("queue-shutdown", || handle.shut_down());
+        return Ok(vec!["inconclusive-timeout"]);
+    }
+    append(m);
+    log.push(Ev::Note("end-of-life begins while the writer is inside stream.flush()"));
+    let ender = {
+        let end = case.end % 2;
+        std::thread::spawn(move || no_panic("queue-shutdown", || if end == 0 { handle.shut_down() } else { drop(handle) }))
+    };
+    // shut_down() / the handle's drop raise the signal first thing; give them time to get there
+    std::thread::sleep(Duration::from_millis(3));
+    hold.release();
+    let t0 = std::time::Instant::now();
+    while !ender.is_finished() {
+        if t0.elapsed() > Duration::from_secs(20) {
+            return Ok(vec!["inconclusive-timeout"]);
+        }
+        std::thread::sleep(Duration::from_micros(200));
+    }
+    ender.join().map_err(|_| Fail::new("panic:queue-shutdown", "the ending thread panicked"))??;
+    drop(f1);
+    drop(q);
+    let evs = log.snapshot();
+    evaluate_delivery(&evs, &[vec![POp::Burst((k1 + m) as u8)]], k1 + m, reports_before)?;
+    let mut classes: Classes = vec!["nt", "appended-while-writer-inside-stream-flush-then-shutdown"];
+    classes.push(if case.request { "held-flush-serves-a-request" } else { "held-flush-is-periodic" });
+    classes.push(if case.end % 2 == 0 { "ended-by-shut-down" } else { "ended-by-handle-drop" });
+    Ok(classes)
+}
+
 pub const RULE: &str = "1-6 real producer threads x 0-25 ops (append, bursts, flush requests fired or awaited, yields/spins/sleeps, continuing through a clone) on a typed or boxed queue (also: build::<BoxEntry>, a BoxEntrySink boxed again and driven through the blanket EntrySink impl, BackgroundQueue::new with all defaults, a queue with a local metrics recorder and metric name, a builder with shutdown_timeout and no thread name) with capacity > total appends; the library's own writer thread; per-call stream results Ok/Validation/Io for entries (optionally repeating for the whole run), Ok/Io/Validation for the in-band report, Ok/error for stream.flush(); capacity = entries appended + 1 or exactly the entries appended; writer progress owned by a generated fuel script (grants, pauses, wait-until-parked-at-the-gate) so that park/unpark races and drained-then-refilled queues occur; flush interval 1us / 1ms / 50ms; in a quarter of the cases the gate stays shut until shut_down() has begun, so that the shutdown-time drain meets a backlog with Io / Validation results inside it; no tracing subscriber (in-band report path live). a quarter of the cases end through forget() + drop of the last handle (the writer's own 'no appenders left' exit) instead of shut_down(). Oracle over the global event log after the end: every appended (producer, seq) reaches the stream exactly once, per-producer seq increasing, nothing else except the in-band report (only after a validation error, process-wide <= 1/s), stream flushed after the last entry and dropped. Non-trivial = >=2 producers with >=2 entries each and (a non-Ok result or a flush request)";
 
 pub fn run(ctx: &mut Ctx) {
@@ -804,6 +889,39 @@ pub fn run(ctx: &mut Ctx) {
             })
         },
         check,
+    );
+    ctx.explore(
+        SubCfg::new(
+            "c01-append-during-flush-then-shutdown",
+            "queue (typed / boxed, five kinds, flush interval 1 ms or 30 s) whose writer is held INSIDE stream.flush() - the flush it performs for an outstanding flush request after draining 0-20 entries, or a periodic one - while 1-30 further entries are appended and then shut_down() / the drop of the join handle is started on another thread, so that the shutdown signal is set when the held flush returns; stream answers Ok or a generated cycle of Ok / Validation / Io. Oracle: c01-delivery's - every entry (all were appended before the end began) reaches the stream exactly once, in order. Non-trivial = every case",
+            if q { 300 } else { 6_000 },
+        )
+        .threads(ctx.tier.pick(8, 16))
+        .shrink_iters(40)
+        .mandatory(&["held-flush-serves-a-request", "held-flush-is-periodic", "ended-by-shut-down", "ended-by-handle-drop"]),
+        || {
+            (
+                any::<bool>(),
+                any::<u8>(),
+                0u8..20,
+                1u8..30,
+                any::<bool>(),
+                0u8..2,
+                prop::bool::weighted(0.7),
+                prop_oneof![3 => Just(vec![]), 1 => prop::collection::vec(arb_sres(), 1..5)],
+            )
+                .prop_map(|(boxed, qkind, k1, m, long_interval, end, request, results)| DuringFlushEndCase {
+                    boxed,
+                    qkind,
+                    k1,
+                    m,
+                    long_interval,
+                    end,
+                    request,
+                    results,
+                })
+        },
+        check_during_flush_end,
     );
     subscriber_children(ctx);
 }
